@@ -78,10 +78,11 @@ fn gen_plan(seed: u64) -> AliasPlan {
         1 => vec![("zz".into(), "c1".into())],
         _ => vec![("b0".into(), "c\"1".into()), ("zz".into(), "".into())],
     };
-    let nreq = 2 + r.below(7) as usize;
+    // now and then a crowd: enough children to grow the child map several times
+    let nreq = if r.chance(6) { 12 + r.below(20) as usize } else { 2 + r.below(7) as usize };
     let base = *r.pick(BASES);
     let mut pool: Vec<Vec<String>> = vec![];
-    for _ in 0..(2 + r.below(3)) {
+    for _ in 0..(2 + r.below(3) + if nreq > 10 { 10 } else { 0 }) {
         pool.push(splits(base, nl, &mut r));
     }
     if r.chance(40) {
